@@ -42,8 +42,13 @@ def inputOfJson (j : Json) : Except String Input := do
   let gR ← match bandsR[bi]? with | some g => pure g | none => throw "band_index out of range (R)"
   let valid ← intOfJson (fieldD j "valid" (intToJson 0))
   let nodata ← intOfJson (fieldD j "nodata" (intToJson 1))
-  let mL ← maskOfJson (fieldD j "mL" Json.null) valid nodata
-  let mR ← maskOfJson (fieldD j "mR" Json.null) valid nodata
+  -- each image has its own mask convention ("validL"/"nodataL", "validR"/"nodataR"; default: the common one)
+  let validL ← intOfJson (fieldD j "validL" (intToJson valid))
+  let nodataL ← intOfJson (fieldD j "nodataL" (intToJson nodata))
+  let validR ← intOfJson (fieldD j "validR" (intToJson valid))
+  let nodataR ← intOfJson (fieldD j "nodataR" (intToJson nodata))
+  let mL ← maskOfJson (fieldD j "mL" Json.null) validL nodataL
+  let mR ← maskOfJson (fieldD j "mR" Json.null) validR nodataR
   let dmin ← field j "dmin" >>= arr2OfJson intOfJson
   let dmax ← field j "dmax" >>= arr2OfJson intOfJson
   return {
